@@ -156,15 +156,20 @@ def parseArgs (l : List XTok) : Option (List (List XTok) × List XTok) := parseA
 
 def comma : XTok := ⟨[','], false⟩
 
+def joinComma : List (List XTok) → List XTok
+  | [] => []
+  | [a] => a
+  | a :: r => a ++ comma :: joinComma r
+
 /-- the arguments of a variadic macro beyond the named ones form one argument, commas included -/
 def mergeVariadic (n : Nat) (args : List (List XTok)) : List (List XTok) :=
   if args.length ≤ n then args
-  else args.take (n - 1) ++ [(args.drop (n - 1)).foldr (fun a acc => if acc.isEmpty then a else a ++ comma :: acc) []]
+  else args.take (n - 1) ++ [joinComma (args.drop (n - 1))]
 
 /-- arguments bound to the parameters, `none` = wrong number -/
 def bindArgs (m : Macro) (ps : List Tok) (args : List (List XTok)) : Option (List (List XTok)) :=
   let n := ps.length
-  if n = 0 then (if args == [[]] then some [] else none)
+  if n = 0 then (if args.length = 1 then some [] else none)     -- simplecpp accepts (and drops) one argument here
   else if m.variadic then
     if args.length + 1 < n then none
     else
